@@ -297,3 +297,16 @@ Definition expected_cached_engine_writes (resets_at_entry : bool) : list string 
   then ["<module>:None"; "clear_engine_cache:None@entry"; "get_all_rules:None@entry";
         "get_all_rules:engine@try@if-endswith-rules"]
   else ["<module>:None"; "clear_engine_cache:None@entry"; "get_all_rules:engine@try@if-endswith-rules"].
+
+(* The show-once report of .rules load errors (merchant_utils._reported_load_errors, optional): process-level
+   state WITH history — the line `Error loading rules from <path>: …` is printed on stderr only the first time a
+   (path, message) pair occurs in a process.  It is NOT part of the model's state or outputs: the stderr line is
+   not a classification result, and the only shape the extractor accepts is one in which the set can influence
+   nothing else (tested and added to only inside a function that returns nothing and prints to sys.stderr;
+   called only as an expression statement inside except handlers; cleared by clear_engine_cache). *)
+Definition expected_load_error_report (present : bool) : list string :=
+  if present
+  then ["set:_reported_load_errors"; "test-add-print(file=sys.stderr)"; "returns-nothing";
+        "cleared-by:clear_engine_cache"; "called-in-except:get_all_rules"; "called-in-except:get_tag_only_rules";
+        "called-in-except:get_transforms"]
+  else [].
